@@ -24,6 +24,30 @@ type Chunks = Vec<(u64, Vec<String>)>;
 
 type Supplied = Arc<std::sync::Mutex<Vec<Arc<dyn SkimItem>>>>;
 
+/// a scripted item; a script text starting with `~` stands for a BLANK line (the text the engines see is empty) that still has
+/// an identity: `output()` is the script text, which names command and position
+pub struct SItem {
+    text: String,
+    out: String,
+}
+
+pub fn item_text(script: &str) -> String {
+    if script.starts_with('~') {
+        String::new()
+    } else {
+        script.to_string()
+    }
+}
+
+impl SkimItem for SItem {
+    fn text(&self) -> Cow<str> {
+        Cow::Borrowed(&self.text)
+    }
+    fn output(&self) -> Cow<str> {
+        Cow::Borrowed(&self.out)
+    }
+}
+
 struct Feeder {
     cmds: HashMap<String, Chunks>,
     supplied: Supplied,
@@ -53,7 +77,7 @@ impl CommandCollector for Feeder {
                     return;
                 }
                 for it in items {
-                    let arc: Arc<dyn SkimItem> = Arc::new(it);
+                    let arc: Arc<dyn SkimItem> = Arc::new(SItem { text: item_text(&it), out: it });
                     supplied.lock().unwrap().push(arc.clone());
                     if tx_item.send(arc).is_err() {
                         return;
@@ -64,6 +88,28 @@ impl CommandCollector for Feeder {
         });
         (rx_item, tx_int)
     }
+}
+
+/// how many waits of this process have timed out so far
+static TIMED_OUT: std::sync::atomic::AtomicU64 = std::sync::atomic::AtomicU64::new(0);
+
+/// how long a session is given to settle: generous (loaded machines), but once two sessions of this process have failed to
+/// settle there is a violation to report already and the remaining sessions get a short limit (a change that makes sessions
+/// hang would otherwise cost 40 s per session)
+fn patience() -> u64 {
+    if TIMED_OUT.load(std::sync::atomic::Ordering::SeqCst) >= 2 {
+        3000
+    } else {
+        20000
+    }
+}
+
+fn wait_settle<F: Fn() -> bool>(f: F) -> bool {
+    let ok = wait_until(f, patience());
+    if !ok {
+        TIMED_OUT.fetch_add(1, std::sync::atomic::Ordering::SeqCst);
+    }
+    ok
 }
 
 fn wait_until<F: Fn() -> bool>(f: F, timeout_ms: u64) -> bool {
@@ -153,6 +199,10 @@ pub fn run_session(opts: &str, cmds: &str, events: &str, rules: &str) -> Session
         options.no_clear_if_empty = has("nce");
         options.header_lines = val("hl").and_then(|v| v.parse().ok()).unwrap_or(0);
         options.interactive = interactive;
+        // a preview pane (the command is a cheap real shell command; what is observed is which item the last request was for)
+        if has("pv") {
+            options.preview = Some("echo {}");
+        }
         options.cmd = Some(if interactive { "c{}" } else { "c0" });
         if interactive {
             options.cmd_query = Some("0");
@@ -221,14 +271,14 @@ pub fn run_session(opts: &str, cmds: &str, events: &str, rules: &str) -> Session
     let wait_idle = |sent_user: u64| -> bool {
         // all user events handled, then one more heart beat must find the system idle
         // (a session that has ended by itself is not waited for)
-        let ok1 = wait_until(|| is_ended() || sched::count("loop.user") >= sent_user, 20000);
+        let ok1 = wait_settle(|| is_ended() || sched::count("loop.user") >= sent_user);
         if is_ended() {
             return true;
         }
-        let c = sched::count("hb.idle");
+        let c = sched::count("loop.quiet");
         sched::log("user EvHeartBeat".to_string());
         let _ = tx.send((Key::Null, Event::EvHeartBeat));
-        let ok2 = wait_until(|| is_ended() || sched::count("hb.idle") > c, 20000);
+        let ok2 = wait_settle(|| is_ended() || sched::count("loop.quiet") > c);
         ok1 && ok2
     };
     let mut finished = false;
@@ -292,7 +342,7 @@ pub fn run_session(opts: &str, cmds: &str, events: &str, rules: &str) -> Session
     }
     if !finished {
         // select-1 / exit-0 may end the session by themselves; otherwise settle and accept
-        let done = wait_until(|| is_ended() || sched::count("hb.idle") > 0, 20000);
+        let done = wait_settle(|| is_ended() || sched::count("loop.quiet") > 0);
         if !done {
             idle_failed = true;
         }
@@ -301,7 +351,7 @@ pub fn run_session(opts: &str, cmds: &str, events: &str, rules: &str) -> Session
             idle_failed = true;
         }
         if is_ended() {
-            result = rx_out.recv_timeout(Duration::from_millis(20000)).ok();
+            result = rx_out.recv_timeout(Duration::from_millis(patience())).ok();
         } else {
             send(Event::EvActAccept(None), &mut sent_user);
         }
@@ -309,8 +359,11 @@ pub fn run_session(opts: &str, cmds: &str, events: &str, rules: &str) -> Session
     let output = match result {
         Some(s) => s,
         None => rx_out
-            .recv_timeout(Duration::from_millis(20000))
-            .unwrap_or_else(|_| "hang".to_string()),
+            .recv_timeout(Duration::from_millis(patience()))
+            .unwrap_or_else(|_| {
+                TIMED_OUT.fetch_add(1, std::sync::atomic::Ordering::SeqCst);
+                "hang".to_string()
+            }),
     };
     if output != "hang" {
         let _ = model_thread.join();
